@@ -5,6 +5,8 @@ WT="$1"; ID="$2"; OUT=/verif/seeded/$ID
 set -u
 cd "$WT" || exit 2
 [ -f patch.diff ] || git diff -- compiler > patch.diff
+# the saved patch must be exactly the uncommitted source change of the worktree
+git diff -- compiler | diff -q - patch.diff >/dev/null || { echo "WARNING: patch.diff differs from the worktree's uncommitted change" ; }
 mkdir -p "$OUT"
 LOG="$OUT/confirm.log"; : > "$LOG"
 echo "== demo WITH change" >> "$LOG"
@@ -14,11 +16,12 @@ echo "== test suite WITH change" >> "$LOG"
 (cd compiler && cargo test --workspace --offline 2>&1 | grep -E "^test result|FAILED|panicked" ) >> "$LOG" 2>&1
 if grep -q "FAILED\|test result: FAILED" "$LOG"; then TESTS=1; else TESTS=0; fi
 echo "tests_failed=$TESTS" >> "$LOG"
-git stash push -q -- compiler
+# (no `git stash`: the stash is shared by all worktrees of a repository and races with agents working in other worktrees)
+git apply -R patch.diff || { echo "patch.diff does not match the working tree" | tee -a "$LOG"; exit 2; }
 echo "== demo WITHOUT change" >> "$LOG"
 bash ./demo.sh >> "$LOG" 2>&1; WITHOUT=$?
 echo "exit=$WITHOUT" >> "$LOG"
-git stash pop -q
+git apply patch.diff
 cp patch.diff "$OUT/patch.diff"
 cp demo.sh "$OUT/" 2>/dev/null
 [ -d demo ] && cp -r demo "$OUT/"
